@@ -215,4 +215,5 @@ func main() {
 	genMtreeLine(repo, out)
 	genArchPkgver(repo, out)
 	genTriggersFn(repo, out)
+	genPkginfoFields(repo, out)
 }
